@@ -4,6 +4,7 @@ import (
 	"fmt"
 	"regexp"
 	"runtime"
+	"sort"
 	"strings"
 	"sync"
 	"sync/atomic"
@@ -162,39 +163,82 @@ func containCrashes() {
 
 var goroutineHeader = regexp.MustCompile(`(?m)^goroutine \d+ \[([^\]]+)\]:$`)
 
-// provenDeadlock inspects all goroutine stacks: every unfinished application thread is parked in
-// CommandQueueStatusListener.Wait on a channel receive, no engine goroutine exists and the driver's
-// runAsync goroutine is parked in its select. In that state nothing can ever wake the waiters.
+// provenDeadlock inspects all goroutine stacks. A deadlock is the state in which every
+// goroutine that runs driver code or an application thread - the application threads that have
+// not finished, the driver's runAsync goroutine and the engine goroutine if one exists - is
+// parked in a blocking operation (channel receive or send, select, mutex or semaphore wait),
+// and at least one application thread is unfinished. None of them is runnable, so none can
+// release another: nothing can ever wake the waiters. (Delays injected by the harness are
+// time.Sleep states and make the predicate false.)
 func provenDeadlock(unfinished int) (bool, string) {
-	buf := make([]byte, 1<<20)
+	if unfinished <= 0 {
+		return false, ""
+	}
+	buf := make([]byte, 1<<21)
 	n := runtime.Stack(buf, true)
 	blocks := strings.Split(string(buf[:n]), "\n\n")
-	waiting := 0
-	asyncParked := false
+	parked := func(state string) bool {
+		for _, p := range []string{"chan receive", "chan send", "select", "sync.Mutex.Lock", "sync.RWMutex", "semacquire", "sync.Cond.Wait", "sync.WaitGroup.Wait"} {
+			if strings.HasPrefix(state, p) {
+				return true
+			}
+		}
+		return false
+	}
+	apps, asyncSeen := 0, false
+	var where []string
 	for _, b := range blocks {
 		m := goroutineHeader.FindStringSubmatch(b)
 		if m == nil {
 			continue
 		}
 		state := m[1]
-		switch {
-		case strings.Contains(b, "driver.(*Driver).runEngine"):
+		isApp := strings.Contains(b, "c12.RunThreadsCase.func")
+		isDriver := strings.Contains(b, "/amd/driver.") || strings.Contains(b, "amd/driver.(*")
+		if !isApp && !isDriver {
+			continue
+		}
+		if strings.Contains(b, "c12.RunThreadsCase(") && !isApp {
+			continue // the harness goroutine itself (it is the one taking this dump)
+		}
+		if !parked(state) {
 			return false, ""
-		case strings.Contains(b, "driver.(*CommandQueueStatusListener).Wait"):
-			if !strings.HasPrefix(state, "chan receive") {
-				return false, ""
-			}
-			waiting++
+		}
+		switch {
+		case isApp:
+			apps++
+			where = append(where, "application thread: "+state+" in "+topDriverFrame(b))
 		case strings.Contains(b, "driver.(*Driver).runAsync"):
-			if strings.HasPrefix(state, "select") {
-				asyncParked = true
-			}
+			asyncSeen = true
+			where = append(where, "runAsync: "+state)
+		case strings.Contains(b, "driver.(*Driver).runEngine"):
+			where = append(where, "engine goroutine: "+state+" in "+topDriverFrame(b))
 		}
 	}
-	if waiting == unfinished && unfinished > 0 && asyncParked {
-		return true, fmt.Sprintf("%d application thread(s) parked in CommandQueueStatusListener.Wait, no engine goroutine, runAsync parked in select", waiting)
+	// application threads of earlier deadlocked cases of this process are still parked
+	if apps == unfinished+leakedApps && asyncSeen {
+		sort.Strings(where)
+		return true, strings.Join(where, "; ")
 	}
 	return false, ""
+}
+
+// leakedApps counts the application goroutines left parked by earlier deadlocked cases.
+var leakedApps int
+
+func topDriverFrame(block string) string {
+	for _, l := range strings.Split(block, "\n") {
+		if strings.Contains(l, "amd/driver.") {
+			if i := strings.Index(l, "("); i > 0 {
+				l = l[:strings.LastIndex(l, "(")]
+			}
+			if i := strings.LastIndex(l, "/"); i >= 0 {
+				l = l[i+1:]
+			}
+			return l
+		}
+	}
+	return "?"
 }
 
 // RunThreadsCase executes one multi-threaded history.
@@ -340,7 +384,7 @@ loop:
 		case <-tick.C:
 			ev := atomic.LoadInt64(&h.events)
 			h.mu.Lock()
-			quiet := h.engines == 0 && !h.asyncBusy && h.inWait > 0
+			quiet := h.inWait > 0 || h.engines > 0
 			h.mu.Unlock()
 			if quiet && atomic.LoadInt64(&h.sleeping) == 0 && ev == lastEvents {
 				unfinished := len(c.Threads) - int(atomic.LoadInt64(&finished))
@@ -352,6 +396,7 @@ loop:
 					}
 					h.mu.Unlock()
 					verdict = "DrainCommandQueue never returns: " + why + "; last scheduling points: " + strings.Join(tail, " ")
+					leakedApps += unfinished
 					break loop
 				}
 			}
